@@ -13,6 +13,10 @@ R10.4 identifier non-nullability: Component.__post_init__ rejects a nullable Ide
       writer of .role / .nullable anywhere in the package is one of the reviewed writers (frozen table, reason each)
 Not decided: that every VALUE conforms to its component's type, uniqueness of identifiers per datapoint, at-most-one
       datapoint without identifiers - these quantify over DuckDB's evaluation of the generated SQL.
+R10.6 membership (DS#comp): Membership.validate, StructureVisitor._build_membership_structure and the SELECT list of
+      _visit_binop_membership are evaluated (E6) on DS_1(ids A,B; measures M,N; attribute T; viral V) for a measure, an identifier
+      and an attribute and must name the same components (not decided: membership on a viral attribute itself - the
+      intermediate structure differs there, no input was found on which that is observable)
 """
 from __future__ import annotations
 
@@ -298,5 +302,35 @@ def run(rep: Report, tier: str) -> None:
                             f"transpiler's structure for the same intermediate result is {_b[1].summary() if _b[0] == 'ok' else _b}: an enclosing operator joins on / projects the wrong "
                             f"identifiers (nested expressions such as (DS_1 + DS_2) * DS_3 give spurious or missing datapoints)"))
     rep.floor("R10.5 shapes", _n, 6)
+    # ---- R10.6: membership DS#comp: validator == structure builder == SELECT list (finite model) ----
+    rep.rule("R10.6", "membership: the components semantic analysis declares == the transpiler's intermediate structure == the columns the SQL selects")
+    from sa.e6 import Unmodelled as _Unm
+    _nm = 0
+    for _c in ("M", "A", "T", "N"):
+        def _D():
+            return _M.ds("DS_1", ["A", "B"], ["M", "N"], ["V"], ["T"])
+        try:
+            _va, _vb, _vs = _sm.membership_interpreter(_M, _D(), _c), _sm.membership_visitor(_M, _D(), _c), _sm.membership_sql(_M, _D(), _c)
+        except _Unm as e:
+            raise AnalysisError(f"R10.6 membership #{_c}: construct outside the evaluator's language: {e}")
+        _nm += 1
+        if _va[0] != "ok" or not hasattr(_va[1], "components"):
+            rep.instance("R10.6", f"membership/{_c}", nontrivial=False, sample={"validator": str(_va)[:80]})
+            continue
+        want = sorted(n for n, _r in _sm.comp_summary(_va[1]))
+        gotb = sorted(n for n, _r in _sm.comp_summary(_vb[1])) if _vb[0] == "ok" and _vb[1] is not None else None
+        gots = sorted(_sm.sql_columns(_vs[1], list(_D().components))) if _vs[0] == "ok" and not isinstance(_vs[1], str) else None
+        rep.instance("R10.6", f"membership/{_c}", nontrivial=True, sample={"declared": want, "structure_visitor": gotb, "sql": gots})
+        fb = P.func(_sm.SV + "._build_membership_structure")
+        fs = P.func(_sm.TRQ + "._visit_binop_membership")
+        if gots != want:
+            rep.add(Finding("R10.6", f"R10.6/membership-sql/{_c}", fs.module.rel, fs.node.lineno, fs.qualname,
+                            f"DS_1#{_c} on DS_1(ids A,B; measures M,N; attribute T; viral V): semantic analysis declares the components {want} but the generated SELECT delivers {gots}: "
+                            f"the returned Dataset declares a component its data does not have (or the other way round)"))
+        if gotb != want:
+            rep.add(Finding("R10.6", f"R10.6/membership-structure/{_c}", fb.module.rel, fb.node.lineno, fb.qualname,
+                            f"DS_1#{_c}: semantic analysis declares {want} but the transpiler's structure for the intermediate result is {gotb}: an operator applied to it in the same statement "
+                            f"works on the wrong components"))
+    rep.floor("R10.6 membership instances", _nm, 4)
     rep.assumptions = ["structure objects are changed only through attribute stores / dict mutation of .components (no setattr/__dict__ tricks: none exist in the package)",
                        "values, uniqueness and nullability of the DATA are produced by DuckDB and are not decided here"]
